@@ -488,7 +488,7 @@ theorem Env.patOf_range (p : Problem K) (hrows : RowsOK p) (At : DMat K) :
       · rw [if_pos hw] at hc
         obtain ⟨i, hi, rfl⟩ := List.mem_map.1 hc
         obtain ⟨cv, hcv, rfl⟩ := List.mem_map.1 hcc
-        exact (hrows (off + i) (by have := List.mem_range.1 hi; omega)).2 cv hcv
+        exact hrows (off + i) (by have := List.mem_range.1 hi; omega) cv hcv
       · rw [if_neg hw] at hc
         obtain ⟨i, hi, rfl⟩ := List.mem_map.1 hc
         have hocc := (List.mem_filter.1 hcc).1
@@ -496,7 +496,7 @@ theorem Env.patOf_range (p : Problem K) (hrows : RowsOK p) (At : DMat K) :
         rcases Env.mem_occOf c _ _ hocc with h0 | ⟨r, hr, e, he, rfl⟩
         · cases h0
         · obtain ⟨i', hi', rfl⟩ := List.mem_map.1 hr
-          exact (hrows (off + i') (by have := List.mem_range.1 hi'; omega)).2 e he
+          exact hrows (off + i') (by have := List.mem_range.1 hi'; omega) e he
     · exact ih (off + b.dim) (by omega) cols hc c hcc
 
 /-- the pattern `Homogenization::run` leaves behind names columns in `1..n` only -/
